@@ -49,6 +49,8 @@ def c10(tier, seed):
             out.append({'line': setup + './pargs %s' % word, 'files': {'pargs': PARGS}, 'expect_stdout': _argv([val]), 'area': 'expand_env:unquoted'})
     out.append({'line': 'sh -c "exit 7"; ./pargs "$?" $?', 'files': {'pargs': PARGS}, 'expect_stdout': _argv(['7', '7']), 'area': 'expand_env:status'})
     out.append({'line': './pargs "a$?b"', 'files': {'pargs': PARGS}, 'expect_stdout': _argv(['a0b']), 'area': 'expand_env:status'})
+    # a word that spans several lines: the text around a reference is kept, references on every line are expanded
+    out.append({'line': 'A=x; ./pargs "a\n$A" "b\n${A}c" "$A\nd${A}"', 'files': {'pargs': PARGS}, 'expect_stdout': _argv(['a\nx', 'b\nxc', 'x\ndx']), 'area': 'expand_env:multi-line-word'})
     out.append({'line': "sh -c 'echo $PPID' > f; X=$(cat f); ./pargs \"$$\" > g; Y=$(cat g); test \"[$X]\" = \"$Y\" && echo same", 'files': {'pargs': PARGS},
                 'expect_stdout': 'same\n', 'area': 'expand_env:pid'})
     # single-quoted text is never expanded, also as the value part of a name='...' word (alias definitions, assignments, arguments)
@@ -100,6 +102,14 @@ def c11(tier, seed):
         {'line': './pargs $(sh -c "echo o; echo e >&2") 2> err; cat err', 'files': {'pargs': PARGS}, 'expect_stdout': '[o]\n', 'area': 'substitution:stderr'},
         {'line': "./pargs '$(echo a)' '`echo a`'", 'files': {'pargs': PARGS}, 'expect_stdout': _argv(['$(echo a)', '`echo a`']), 'area': 'substitution:single-quoted'},
         {'line': 'alias zz="echo al"; ./pargs $(zz)', 'files': {'pargs': PARGS}, 'expect_stdout': _argv(['al']), 'area': 'substitution:alias'},
+        # only trailing newlines are removed: blanks at either end belong to the output
+        {'line': './pargs "[$(./ws)]" "[`./ws`]" "`./ws`"', 'files': {'pargs': PARGS, 'ws': "#!/bin/sh\nprintf '  x  \\n\\n'\n"}, 'expect_stdout': _argv(['[  x  ]', '[  x  ]', '  x  ']), 'area': 'substitution:blanks-kept'},
+        # the inner command's stderr is not part of the result and is not lost
+        {'line': './pargs "[$(./oe2)]" "`./oe2`"', 'files': {'pargs': PARGS, 'oe2': '#!/bin/sh\necho O\necho E-INNER >&2\n'}, 'expect_stdout': _argv(['[O]', 'O']), 'expect_stderr_contains': 'E-INNER', 'area': 'substitution:stderr-passed-on'},
+        # braces in the output are text for the later range pass too
+        {'line': "./pargs $(./rng) x$(./rng)y {1..2}", 'files': {'pargs': PARGS, 'rng': "#!/bin/sh\necho '{1..3}'\n"}, 'expect_stdout': _argv(['{1..3}', 'x{1..3}y', '1', '2']), 'area': 'substitution:output-with-range-braces'},
+        # inside a substitution the statuses are real: a function called as $(f) short-circuits and sees $? like anywhere else
+        {'script': 'function f() {\n    false && echo NO\n    sh -c "exit 3"\n    echo "st=$?"\n}\n./pargs "$(f)"\n', 'files': {'pargs': PARGS}, 'expect_stdout': _argv(['st=3']), 'area': 'substitution:function-statuses'},
     ]
     return out
 
@@ -213,6 +223,9 @@ def c12(tier, seed):
         {'line': './pargs L a* R', 'files': pop, 'expect_stdout': _argv(['L', 'a b', 'a1', 'a2', 'R']), 'area': 'expand_glob:order'},
         {'line': './pargs b* a*', 'files': pop, 'expect_stdout': _argv(['b1', 'a b', 'a1', 'a2']), 'area': 'expand_glob:order'},
         {'line': 'mkdir d; touch d/x d/y; ./pargs d/*', 'files': pop, 'expect_stdout': _argv(['d/x', 'd/y']), 'area': 'expand_glob:subdir'},
+        # a word the pass cannot handle stays as it is and does not stop the others
+        {'line': './pargs a* *[ b*', 'files': pop, 'expect_stdout': _argv(['a b', 'a1', 'a2', '*[', 'b1']), 'area': 'expand_glob:malformed-pattern-next-to-valid-ones'},
+        {'line': './pargs {1..3} {99999999999..1} {2..1}', 'files': pop, 'expect_stdout': _argv(['1', '2', '3', '{99999999999..1}', '2', '1']), 'area': 'expand_brace_range:out-of-range-bound-next-to-valid-ones'},
         # hidden places: a `*` matches neither a hidden file nor anything below a hidden directory, unless the pattern spells the dot out
         {'line': 'mkdir d .hid d/.hs; touch d/x d/.h .hid/x d/.hs/x; ./pargs */x', 'files': pop, 'expect_stdout': _argv(['d/x']), 'area': 'expand_glob:hidden-directory'},
         {'line': 'mkdir d .hid d/.hs; touch d/x d/.h .hid/x d/.hs/x; ./pargs */*', 'files': pop, 'expect_stdout': _argv(['d/x']), 'area': 'expand_glob:hidden-directory'},
@@ -249,6 +262,12 @@ def c13(tier, seed):
             out.append({'line': setv + 'export A=%s; ./pargs "$A"' % form, 'files': {'pargs': PARGS}, 'expect_stdout': _argv([v]), 'expect_only_files': ['pargs'], 'area': 'data:assignment-shaped-argument:export'})
             out.append({'line': setv + 'A=%s; ./pargs "$A"' % form, 'files': {'pargs': PARGS}, 'expect_stdout': _argv([v]), 'expect_only_files': ['pargs'], 'area': 'data:assignment'})
             out.append({'line': setv + 'B=1 A=%s ./pargs A=%s' % (form, form), 'files': {'pargs': PARGS}, 'expect_stdout': _argv(['A=' + v]), 'expect_only_files': ['pargs'], 'area': 'data:assignment:prefix'})
+    # a literal & in the word (a URL) does not make the value's operators syntax
+    out.append({'line': "V='a>b'; ./pargs http://h/?a=1&b=$V x", 'files': {'pargs': PARGS}, 'expect_stdout': _argv(['http://h/?a=1&b=a>b', 'x']), 'expect_only_files': ['pargs'], 'area': 'data:variable:word-with-literal-ampersand'})
+    # ... while a redirection the user wrote keeps working when its target comes from a variable
+    out.append({'line': "F=ff; ./pargs hi >$F; cat ff", 'files': {'pargs': PARGS}, 'expect_stdout': _argv(['hi']), 'area': 'data:variable:written-redirection-still-works'})
+    # a matched file name with range braces is one word
+    out.append({'line': 'mkdir gb; touch "gb/{1..2}" gb/z; ./pargs gb/*', 'files': {'pargs': PARGS}, 'expect_stdout': _argv(['gb/z', 'gb/{1..2}']), 'area': 'data:glob:name-with-braces'})
     names = ['a>b', 'x;y', 'p|q', 'r&', '#h', '2>&1']
     files = dict({'pargs': PARGS}, **{n: '' for n in names})
     out.append({'line': './pargs *', 'files': files, 'expect_stdout': _argv(sorted(names + ['pargs'])), 'expect_only_files': sorted(names + ['pargs']), 'area': 'data:glob'})
@@ -432,6 +451,8 @@ def c09(tier, seed):
         {'line': 'A=1; ./pargs "$A"; ./envp', 'files': F, 'expect_stdout': '[1]\n[]\n', 'area': 'vars:assignment-is-local'},
         {'line': 'export A=1; A=2; ./pargs "$A"; ./envp', 'files': F, 'expect_stdout': '[2]\n[2]\n', 'area': 'vars:assignment-to-exported'},
         {'line': 'A=1 ./envp; ./pargs "[$A]"', 'files': F, 'expect_stdout': '[1]\n[[]]\n', 'area': 'vars:prefix-assignment'},
+        # the prefix replaces an exported NAME for that command (one entry in its environment, not two), and only for it
+        {'line': 'export A=1; A=2 printenv A; printenv A; A=3 ./envp; ./pargs "$A"', 'files': F, 'expect_stdout': '2\n1\n[3]\n[1]\n', 'area': 'vars:prefix-assignment:exported-name'},
         {'line': 'export A=7; ./envp; ./pargs "$A"', 'files': F, 'expect_stdout': '[7]\n[7]\n', 'area': 'vars:export'},
         {'line': 'export A=7; unset A; ./envp; ./pargs "[$A]"', 'files': F, 'expect_stdout': '[]\n[[]]\n', 'area': 'vars:unset'},
         {'line': 'A=7; unset A; ./pargs "[$A]"', 'files': F, 'expect_stdout': '[[]]\n', 'area': 'vars:unset'},
@@ -645,6 +666,11 @@ def c08(tier, seed):
                    'echo a > /nonexistent-dir/f; minfd', 'cat <<< hs; minfd', 'echo a | cat <<< hs; minfd', 'X=$(nosuchcmd-xyz); minfd', 'X=`echo a`; minfd',
                    'echo a | cat | cat | cat | cat | cat; minfd', 'sh -c "exit 3"; minfd', 'echo x >> f6; echo y >> f6; minfd', 'alias zz=1; unalias zz; minfd',
                    'cd /; minfd', 'export A=1; minfd', 'read v <<< x; minfd']
+    # descriptor exhaustion: the pipeline fails with a non-zero status and the shell keeps working
+    for l, want in (('ulimit -n 4; cat <<< foo; echo st=$?; ulimit -n 64; minfd', None), ('ulimit -n 6; echo a | cat <<< foo | cat; echo st=$?; ulimit -n 64; minfd', None)):
+        out.append({'line': l, 'timeout': 8, 'expect_stdout_last_line': '3', 'expect_no_stdout_line': 'st=0', 'area': 'fd:exhaustion:nonzero-status'})
+    # a command that exits without reading a here-string larger than a pipe buffer: the shell survives (no SIGPIPE death) and leaks nothing
+    out.append({'line': 'true <<< "$(head -c 70000 /dev/zero | tr \\0 a)"; echo alive; minfd', 'timeout': 10, 'expect_stdout': 'alive\n3\n', 'area': 'fd:here-string-not-read'})
     for l in shell_lines:
         out.append({'line': l, 'timeout': 8, 'expect_stdout_last_line': '3', 'area': 'fd:shell-table'})
     # in a script the script file itself is open in the shell: the reference is what a script consisting of `minfd` alone prints
